@@ -30,3 +30,11 @@ def published_flag(data, compress_enabled):
 def fits(data):
     """format limit: the length field has 32 bits (either form of the packet)"""
     return len(data) < 2 ** 32 and len(zcomp(data, C.LEVEL)) < 2 ** 32
+
+
+@spec
+def fits_sent(data, compress_enabled):
+    """the form of the packet that is actually sent (compressed above the threshold) fits the length field"""
+    if published_flag(data, compress_enabled):
+        return len(zcomp(data, C.LEVEL)) < 2 ** 32
+    return len(data) < 2 ** 32
